@@ -22,6 +22,7 @@ EXPLANATION = (
     "arguments unchanged; (f) the optimiser holds _get_weights()'s own arrays and no weight attribute is re-bound in code "
     "reachable from a training step; (g) formal sign: each returned gradient is an odd number of negations away from the "
     "GEMINI gradient and penalties are added. Not decided: the Jacobian formulas themselves, scalar factors.")
+ADOPT = [("C10", ["C10-e"], "the constraint gradient is added to the rows of the batch being back-propagated only if the recorded indices are those of that batch")]
 ASSUMPTIONS = ["numpy shape semantics of gcverif/e3_numpy.py", "optimiser.update_params(params, grads) updates params[i] in place with grads[i]",
                "Douglas cut-point gradients are outside the shape domain (Kronecker reshape) and excluded from (c) and (g)"]
 
@@ -299,6 +300,17 @@ def run(pm, ctx):
             ctx.unrecognised("C03-k", site, detail)
         else:
             ctx.violation("C03-k", du.relpath, "Douglas._compute_grads", site, f"{site}: {detail}", line=pm.classes["Douglas"].methods["_compute_grads"].lineno, site=site)
+    ctx.rule("C03-l", "Douglas: forward and backward agree on the layout of the leaf axis (Kronecker order of the merged binnings)", floor=1)
+    from ..e8_models import douglas_kronecker
+    site = "Douglas._merge_leaf: Kronecker order"
+    try:
+        st_, det_ = douglas_kronecker(pm)
+        if st_ == "exact":
+            ctx.ok("C03-l", site, det_)
+        else:
+            ctx.violation("C03-l", du.relpath, "Douglas._merge_leaf", "product layout", det_, line=pm.classes["Douglas"].methods["_merge_leaf"].lineno, site=site)
+    except _U8 as e:
+        ctx.unrecognised("C03-l", site, f"outside the translated subset: {e}")
     concrete = pm.concrete_estimators()
     # representative concrete estimator per _compute_grads definition
     def any_concrete(ci):
@@ -862,4 +874,6 @@ def controls(pm, tier):
     kmut("        leaf_score_backprop = self._leaf.T @ y_pred_grad", "        leaf_score_backprop = self._leaf.T @ gradient", "Douglas: leaf scores skip the softmax Jacobian")
     kmut("            bin_grad = weighted_grad - self._all_binnings[i] * weighted_grad.sum(1, keepdims=True)", "            bin_grad = weighted_grad - self._all_binnings[i] * weighted_grad.mean(1, keepdims=True)",
          "Douglas: bin softmax backprop with a mean")
+    kmut('        product = np.einsum("ij,ik->ijk", leaf_res1, leaf_res2)', '        product = leaf_res1[:, np.newaxis, :] * leaf_res2[:, :, np.newaxis]', "Douglas: Kronecker order swapped")
+    out[-1]["rule"] = "C03-l"
     return out
